@@ -176,11 +176,17 @@ def settlePass (f : Flat) (s : Store) : Store :=
     | .star => let (s', q) := runProc s p; applyNba s' q
     | _ => s) s
 
+/-- did a pass leave every signal and memory as it was?  (decided on the stores, not per write: a block that writes a
+    target twice on one path — last write wins — must not count as a change) -/
+def sameStore (a b : Store) : Bool :=
+  b.vals.fold (fun acc k v => acc && (a.rd.val k == v)) true &&
+  b.mems.fold (fun acc k arr => acc && (match a.mems[k]? with | some x => x == arr | none => false)) true
+
 def settleLoop (f : Flat) : Nat → Store → Store × Bool
   | 0, s => (s, false)
   | fuel + 1, s =>
-    let s' := settlePass f { s with changed := false }
-    if s'.changed then settleLoop f fuel s' else (s', true)
+    let s' := settlePass f s
+    if sameStore s s' then (s', true) else settleLoop f fuel s'
 
 def Sim.settle (m : Sim) : Sim :=
   let (s, ok) := settleLoop m.flat (m.flat.assigns.length + m.flat.procs.length + 3) m.st
